@@ -19,20 +19,20 @@ var mathInt = types.Typ[types.UntypedInt]
 var mathBool = types.Typ[types.UntypedBool]
 
 type Env struct {
-	x       *Exec
-	fn      *ssa.Function
-	fr      *Frame
-	pos     token.Pos
-	vars    map[string]Val
-	oldVars map[string]Val
-	st, old *State
-	post    bool
-	results []Val
-	bound   map[string]string
-	lets    map[string]Val
-	sides   map[string]*Env // pair lemmas: "l" and "r"
-	inOld   bool
-	noFacts bool
+	x          *Exec
+	fn         *ssa.Function
+	fr         *Frame
+	pos        token.Pos
+	vars       map[string]Val
+	oldVars    map[string]Val
+	st, old    *State
+	post       bool
+	results    []Val
+	bound      map[string]string
+	lets       map[string]Val
+	sides      map[string]*Env // pair lemmas: "l" and "r"
+	inOld      bool
+	noFacts    bool
 	regionSide bool
 }
 
@@ -809,6 +809,23 @@ func (x *Exec) specCall(env *Env, c *ast.CallExpr) (Val, error) {
 		hi, err := x.specInt(env, c.Args[2])
 		if err != nil {
 			return Val{}, err
+		}
+		// small constant ranges are expanded (quantifier-free queries are decided much more reliably)
+		if blo, ok1 := litVal(lo); ok1 {
+			if bhi, ok2 := litVal(hi); ok2 && blo.IsInt64() && bhi.IsInt64() && bhi.Int64()-blo.Int64() <= 64 {
+				var parts []string
+				for k := blo.Int64(); k < bhi.Int64(); k++ {
+					b, err := x.specBool(env.withBound(id.Name, smtInt(k)), c.Args[3])
+					if err != nil {
+						return Val{}, err
+					}
+					parts = append(parts, b)
+				}
+				if fname == "forall" {
+					return mBool(smtAnd(parts...)), nil
+				}
+				return mBool(smtOr(parts...)), nil
+			}
 		}
 		x.n++
 		sym := fmt.Sprintf("%s!q%d", id.Name, x.n)
